@@ -33,6 +33,7 @@ structure Stable (p : Flags → Bool) (q : CompKind → Bool) : Prop where
   prio : ∀ (x : Int) (f : Flags), p f = true → p { f with prio := some x } = true
   ro : ∀ (w l : Flags), p w = true → p (replaceOtherFlags w l) = true
   rs : ∀ (w l : Flags), p w = true → p (replaceSelfFlags w l) = true
+  promo : ∀ (w l : Flags), p w = true → p (promotedFlags w l) = true
   fn : ∀ (k : CompKind) (g : String), q k = true → q (k.setFunc g) = true
 
 /-- the nodes created while flattening (`ConfigList(self)`) satisfy the predicates -/
@@ -314,7 +315,7 @@ theorem maybePromote_all (hS : Stable p q) {sf : Flags} {sk : CompKind} {scs : L
     repeat' split at h
     all_goals first
       | (cases h; rw [allN_comp]; exact ⟨hsf, hsk, hscs⟩)
-      | (rename_i cs' ha; cases h; rw [allN_comp]; exact ⟨hsf, hok, adoptAll_all hS _ _ _ _ _ hscs allL_nil ha⟩)
+      | (rename_i cs' ha; cases h; rw [allN_comp]; exact ⟨hS.promo _ _ hsf, hok, adoptAll_all hS _ _ _ _ _ hscs allL_nil ha⟩)
       | cases h
 
 theorem finishMerge_all (hS : Stable p q) {sf : Flags} {sk : CompKind} {scs : List (Key × Node)} {o r : Node} {b : Bool}
